@@ -105,7 +105,7 @@ func makeAR(rng *rand.Rand, cas []acctItem, tag string) []byte {
 // opKinds for evidence.
 var acctOps = []string{"put", "put", "put", "put", "put-ac", "put-raw", "get", "get-unknown", "getzstd", "put", "put-badhash", "put-short", "put-long", "put-readerr", "put-toolarge", "put-ac", "put-raw",
 	"get", "get-unknown", "get-partial", "getzstd", "contains", "findmissing", "getvalidated", "proxyfetch-ok", "proxyfetch-fail", "put-zero",
-	"proxyfetch-ac", "proxyfetch-raw", "restart", "overwrite-tail", "overwrite-tail", "put-zero", "put-writeerr", "put-writeerr"}
+	"proxyfetch-ac", "proxyfetch-raw", "restart", "overwrite-tail", "overwrite-tail", "put-zero", "put-writeerr", "put-writeerr", "proxyfetch-writeerr"}
 
 func (w *acctWorld) step(rng *rand.Rand, concurrent bool) {
 	ctx := context.Background()
@@ -365,6 +365,34 @@ func (w *acctWorld) step(rng *rand.Rand, concurrent bool) {
 		if rng.IntN(2) == 0 {
 			w.px.Delete(kind, k)
 		}
+	case "proxyfetch-writeerr":
+		// a backend fetch whose local file write fails part-way (see put-writeerr)
+		if w.px == nil || concurrent || w.srv != nil || size < 2 {
+			return
+		}
+		w.px.SetBlob(cache.CAS, it.hash, it.content)
+		sz := size
+		if rng.IntN(2) == 0 {
+			sz = -1
+		}
+		restore, ok := lowerFileSizeLimit(uint64(1 + rng.IntN(int(size)-1)))
+		if !ok {
+			return
+		}
+		var rc io.ReadCloser
+		var err error
+		track(size, func() { rc, _, err = w.c.Get(ctx, cache.CAS, it.hash, sz, 0) })
+		restore()
+		switch {
+		case err != nil:
+			outcome = "err"
+		case rc == nil:
+			outcome = "miss"
+		default:
+			_, _ = io.Copy(io.Discard, rc)
+			_ = rc.Close()
+		}
+		w.px.Delete(cache.CAS, it.hash)
 	case "proxyfetch-ok", "proxyfetch-fail":
 		if w.px == nil {
 			return
